@@ -29,6 +29,8 @@ structure GapBlind (O : Oracle) : Prop where
   sel : ∀ ns (s s' : SSel), SameSel s s' → O.selOk ns s.toks = O.selOk ns s'.toks
   media : ∀ (g1 g2 g1' g2' : Gap) (mq : List Tok), comments g1 = comments g1' → comments g2 = comments g2' →
     O.mediaOk (mediaHead g1 mq g2) = O.mediaOk (mediaHead g1' mq g2')
+  /-- the gap behind the media query list of `@import` (white space and comments) does not matter -/
+  impMedia : ∀ (mq : List Tok) (g g' : Gap), O.mediaOk (mq ++ Gap.toks g) = O.mediaOk (mq ++ Gap.toks g')
   charset : ∀ (q : Quote) (enc : Cps),
     O.atOk .charsetSym false (charsetToks (q, enc)) = O.atOk .charsetSym false (charsetToks (.dq, enc))
 
@@ -108,9 +110,9 @@ theorem ruleAcc_canon (O : Oracle) (hB : GapBlind O) (M : List Cps) (ns : List (
       O.selOk ns (canonSel sel).toks = true ∧ blockAcc O (canonBlock (lv + 1) blk))
     rw [hB.sel ns _ _ (sameSel_canon sel)]; exact h.accepts
   | .unknown t, _ => by simp only [canonRule]; trivial
-  | .media kw g1 mq g2 lead rules, h => by
-    have h : MqOk mq ∧ O.mediaOk (mediaHead g1 mq g2) = true ∧ rules.WF O M ns true := h
-    refine (⟨?_, rulesAcc_canon O hB M ns true (lv + 1) true rules h.2.2⟩ :
+  | .media kw g1 mq g2 name lead rules, h => by
+    have h : MqOk mq ∧ O.mediaOk (mediaHead g1 mq g2) = true ∧ rules.WF O M ns true ∧ NameWF name := h
+    refine (⟨?_, rulesAcc_canon O hB M ns true (lv + 1) true rules h.2.2.1⟩ :
       O.mediaOk (mediaHead (gLead g1) mq (gTrail g2 [.ws sp])) = true ∧ rulesAcc O ns (canonRules (lv + 1) true rules))
     rw [hB.media (gLead g1) (gTrail g2 [.ws sp]) g1 g2 mq (by simp) (by simp [comments_gTrail, comments])]
     exact h.2.1
@@ -133,20 +135,42 @@ theorem impAcc_canon (O : Oracle) (hB : GapBlind O) (M : List Cps) (r : SImp) (h
   cases r with
   | comment b => trivial
   | unknown t => trivial
-  | import_ kw g1 href g2 mq =>
-    have h : ImportWF O href mq := h
+  | import_ kw g1 href g2 mq name =>
+    have h : ImportWF O href mq name := h
     cases mq with
     | none => trivial
     | some p =>
-      show O.mediaOk (p.1 ++ Gap.toks (gTrail p.2 [])) = true
-      have e := hB.media [] (gTrail p.2 []) [] p.2 p.1 rfl (by simp [comments_gTrail, comments])
-      have e' : O.mediaOk (p.1 ++ Gap.toks (gTrail p.2 [])) = O.mediaOk (p.1 ++ Gap.toks p.2) := by
-        simpa [mediaHead, Gap.toks] using e
-      rw [e']; exact (h.mqWF p rfl).2
+      show O.mediaOk (p.1 ++ Gap.toks (gTrail (p.2 ++ emptyNameGap name) _)) = true
+      rw [hB.impMedia p.1 _ p.2]; exact (h.mqWF p rfl).2
+
+theorem varDeclAcc_canon (O : Oracle) (hB : GapBlind O) (c : Option Ws) (d : SVarDecl) (h : d.WF O) :
+    varDeclAcc O (canonVarDecl c d) := by
+  unfold varDeclAcc
+  have e := hB.value [] (gTrail d.g3 (closing c)) [] d.g3 d.value rfl (by simp [comments_gTrail])
+  have e' : O.valueOk ((canonVarDecl c d).value ++ Gap.toks (canonVarDecl c d).g3) =
+      O.valueOk (d.value ++ Gap.toks d.g3) := by
+    simpa [Gap.toks, canonVarDecl] using e
+  rw [e']; exact h.accepts
+
+theorem varAcc_canon (O : Oracle) (hB : GapBlind O) (M : List Cps) (r : SVar) (h : r.WF O M) : varAcc O (canonVar r) := by
+  cases r with
+  | comment b => trivial
+  | unknown t => trivial
+  | variables kw g0 blk =>
+    have h : blk.WF O := h
+    have hs := layVarItems_shape 1 (varDecls blk)
+    refine (⟨?_, ?_⟩ : (∀ p ∈ (canonVarBlock 1 blk).items, varDeclAcc O p.1) ∧
+      ∀ d, (canonVarBlock 1 blk).last = some d → varDeclAcc O d)
+    · intro p hp
+      obtain ⟨d0, h0, e⟩ := hs.1 p hp
+      rw [e]; exact varDeclAcc_canon O hB none d0 (varDecls_wf O blk h d0 h0)
+    · intro d hd
+      obtain ⟨d0, h0, e⟩ := hs.2 d hd
+      rw [e]; exact varDeclAcc_canon O hB _ d0 (varDecls_wf O blk h d0 h0)
 
 theorem acceptsV_of_blind (O : Oracle) (hB : GapBlind O) (M : List Cps) (t : SSheet) (h : t.WF O M) :
     Accepts O (canonV t) := by
-  refine ⟨?_, ?_, ?_⟩
+  refine ⟨?_, ?_, ?_, ?_⟩
   · intro c hc
     cases hcs : t.charset with
     | none => simp [canonV, hcs] at hc
@@ -157,6 +181,9 @@ theorem acceptsV_of_blind (O : Oracle) (hB : GapBlind O) (M : List Cps) (t : SSh
   · intro p hp
     obtain ⟨q, hq, e⟩ := layStmts_mem _ _ _ p hp
     rw [e]; exact impAcc_canon O hB M q.1 (h.importsOk q hq)
+  · intro p hp
+    obtain ⟨q, hq, e⟩ := layStmts_mem _ _ _ p hp
+    rw [e]; exact varAcc_canon O hB M q.1 (h.variablesOk q hq)
   · have hns : nsPairs (canonV t).namespaces = nsPairs t.namespaces := nsPairs_layStmts _ _
     rw [hns]
     exact rulesAcc_canon O hB M _ false 0 false t.rules h.rulesOk
